@@ -74,8 +74,26 @@ OBLIGATIONS = [
      "statement": "stop()+start() after any history leaves the index empty, for either form (guarded/unconditional) of shutdownDrain's erase"},
     {"id": "C06_T3_F17", "theorem": "Iora.C06.T3_refuted_without_guard", "kind": "proved",
      "statement": "with the unrepaired unconditional erase T3_step is false (4-step witness): the guard is necessary"},
+    {"id": "C06_G8", "theorem": "Iora.C06.G8_read_loops_drain", "kind": "proved",
+     "statement": "derived from the source: both receive loops are unbounded loops around one recv/recvfrom whose only exits are the EAGAIN break and the hard-error exit, "
+                  "a zero-length read does not leave them (onClient: the FC06b repair); IN before OUT of a merged event; handleFdEvent routes by tag; addEpoll/modEpoll plain"},
+    {"id": "C06_T1_api", "theorem": "Iora.C06.T1_api_send_is_one_command", "kind": "proved",
+     "statement": "send() = nothing for n == 0, else one memcpy of exactly n bytes and exactly one enqueue(Cmd::send); sendAsync() is one send() call"},
+    {"id": "C06_T2_wake", "theorem": "Iora.C06.T2_wake_conserves", "kind": "proved",
+     "statement": "for ANY loop shape (budget, zero-length ends it or not): what a wake-up takes ++ what it leaves = the kernel queue (nothing invented, dropped, reordered)"},
+    {"id": "C06_T3_drained", "theorem": "Iora.C06.T3_nothing_left_behind", "kind": "proved",
+     "statement": "arrival-level model (kernel queues, ET/LT epoll, loop shapes from Gen): with draining loops and EPOLLIN armed, after EVERY history every kernel receive queue is empty"},
+    {"id": "C06_T3_refines", "theorem": "Iora.C06.T3_wake_refines", "kind": "proved",
+     "statement": "under the same hypotheses a history of ARRIVALS has exactly the events and engine state of `run` on 'every loop returns exactly what arrived': T1-T3 hold for what arrives"},
+    {"id": "C06_T3_keeps", "theorem": "Iora.C06.T3_keeps_arriving", "kind": "proved",
+     "statement": "event level, one theorem: after ANY arrival-level history ending with a -> sid, a datagram of 1..65507 bytes from a arriving at any existing listener is read by "
+                  "that wake-up (queue empty afterwards) and is exactly the one event data sid <bytes>; mapping kept (HYPOTHESES KeyInjective, draining loops, ArmFacts)"},
+    {"id": "C06_FC06b", "theorem": "Iora.C06.FC06b_refuted_with_zero_length_break", "kind": "proved",
+     "statement": "with the unrepaired `break` after a zero-length read in onClient and EPOLLET, a datagram behind a zero-length one stays in the kernel queue until a THIRD arrives (witness)"},
+    {"id": "C06_T3_budget", "theorem": "Iora.C06.T3_refuted_with_read_budget", "kind": "proved",
+     "statement": "with a per-wake-up read budget and EPOLLET a burst larger than the budget leaves datagrams undelivered (witness): the loops must be unbounded"},
 ]
-ANCHOR_FILES = ["include/iora/network/detail/udp_engine.hpp", "include/iora/network/transport_types.hpp"]
+ANCHOR_FILES = ["include/iora/network/detail/udp_engine.hpp", "include/iora/network/transport_types.hpp", "include/iora/network/event_batch_processor.hpp"]
 HARNESS = "harness/c06_udp.cpp"
 BOUNDARY = [1, 2, 1472, 1473, 8192, 65506, 65507]
 MAXDG = 65507
@@ -84,15 +102,20 @@ V4_OTHER = [5, 6]               # 127.0.0.2, SAME ports as peers 0 and 1
 V6 = [7]                        # ::1, same port as peer 0
 MAPPED = 10                     # address id 10+k = IPv4 peer k as a dual-stack ("::") listener sees it: ::ffff:127.0.0.x:<port> (host of 16+ characters)
 KEY_ANCHORS = ("key", "addressFromSockaddr", "readFromListener", "viaDo")   # a change here forces extra long-address cases
+LOOP_ANCHORS = ("readFromListener", "onClient", "onListener", "handleFdEvent", "loopUnbatched", "loopBatched", "processBatch",
+                "processBatchWithSpecialFDs")                                 # a change here forces extra burst / zero-length cases
 
-# body hashes of the mirrored C++ functions at the time the model was reviewed (tree = /repo HEAD 6357b3c + fixes/FC06a); a
+# body hashes of the mirrored C++ functions at the time the model was reviewed (tree = /repo HEAD c577281 + fixes/FC06b); a
 # difference is reported in the evidence ("mirrored source changed since the model was reviewed"), it is NOT an alarm: the lockstep decides.
-REVIEWED_ANCHORS = {"readFromListener": "eb7bfaf78858aa8d", "onClient": "6369b4f050f08873", "connectDo": "e39df8c854b7fcfc",
+REVIEWED_ANCHORS = {"readFromListener": "eb7bfaf78858aa8d", "onClient": "2afb36f9f903d16d", "connectDo": "e39df8c854b7fcfc",
                     "viaDo": "d8157dd075d5be93", "sendDo": "394eac844294f72c", "flushListener": "29f73234632388ee",
                     "writeClient": "1f8857d0c0cc1bd0", "closeNow": "62ca6ab7c0e25b36", "runGc": "0dacf43630d8a35b",
                     "shutdownDrain": "1933b31c08bbe965", "updateListener": "0f20c0f2a9bff3e5", "updateClient": "b5487b42a89214cd",
                     "process": "e158fb026fb1d6df", "addListenerDo": "f5a0bddd51a71540", "key": "f6e238fdeb9ad40d",
-                    "addressFromSockaddr": "20d0db15b5d6c5de"}
+                    "addressFromSockaddr": "20d0db15b5d6c5de", "onListener": "9c99722ce3ac11ca", "handleFdEvent": "3ae6316dd0934b68",
+                    "loopUnbatched": "2f4434de1acca664", "loopBatched": "4ed070232d1167d6", "addEpoll": "036ee780dfe555bc",
+                    "modEpoll": "c872dc6c107d2b0c", "send": "3898c16046cdb316", "sendAsync": "5a82fd5e9e1df94e",
+                    "processBatch": "15ca06eee905d1fa", "processBatchWithSpecialFDs": "ae772e7fdd7a8809"}
 
 
 def anchors_changed(ctx):
@@ -138,7 +161,7 @@ def rand_payload(rng, used, big_ok=True, allow_over=False):
         elif k < 18 or not big_ok:
             n = rng.choice([1, 2, 3, 255, 256, 1472, 1473, 1500, 8192])
         else:
-            n = rng.choice(BOUNDARY + [65507, 65506, 40000])
+            n = rng.choice(BOUNDARY + [65507, 65506, 40000, rng.range(8193, 65505), rng.range(8193, 65505), rng.range(8193, 20000)])
         if allow_over and rng.chance(1, 25):
             n = rng.choice([65508, 65509, 70000])
         plen = rng.choice([2, 3, 5, 7, 13, 31])
@@ -238,6 +261,8 @@ class Gen:
             cfg["batch"] = 1
         if rng.chance(1, 4):
             cfg["et"] = 0
+        elif rng.chance(1, 6):
+            cfg["et"] = 1
         self.cfg = cfg
         self.g = Sketch(cfg)
         self.used = set()
@@ -271,6 +296,17 @@ class Gen:
             self.big_budget -= 1
         return pl
 
+    def tiny(self):
+        """a 1..3-byte payload token that is new in this case (deliveries are matched by payload)"""
+        for _ in range(200):
+            n = self.rng.choice([1, 2, 2, 3])
+            tok = "%d.%s" % (n, self.rng.bytes(n).hex())
+            key = expand(tok)
+            if key not in self.used:
+                self.used.add(key)
+                return tok
+        return rand_payload(self.rng, self.used, big_ok=False)
+
     def peer_for(self, fam):
         c = [p for p in self.peers if fam == 0 or fam_of(p) == fam]
         return self.rng.choice(c) if c else None
@@ -289,23 +325,42 @@ class Gen:
         lid = g.any_lid(rng) if lid is None else lid
         fam = g.lfam.get(lid, 4)
         dgs = []
-        for _ in range(rng.choice([1, 1, 1, 2, 3])):
-            p = self.peer_for(fam)
-            if p is None:
-                break
-            bad = "!" if rng.chance(1, 60) else ""        # getnameinfo fails for this one datagram
-            dgs.append((p, self.payload(big_ok=not dgs) + bad))
+        burst = self.cat == "burst" and rng.chance(1, 2) or rng.chance(1, 40)
+        if burst:
+            # more datagrams per wake-up than any plausible read budget / than epollMaxEvents: 17..80 tiny items from a few peers
+            n = rng.choice([17, 18, 20, 33, 64, 65, 80])
+            ps = [p for p in (self.peer_for(fam), self.peer_for(fam)) if p is not None]
+            for k in range(n if ps else 0):
+                dgs.append((ps[k % len(ps)] if rng.chance(1, 3) else ps[0], self.tiny()))
+        else:
+            for _ in range(rng.choice([1, 1, 1, 2, 3, 4, 4, 6, 9, 16])):
+                p = self.peer_for(fam)
+                if p is None:
+                    break
+                bad = "!" if rng.chance(1, 60) else ""        # getnameinfo fails for this one datagram
+                if rng.chance(1, 6 if self.cat == "burst" else 14):
+                    dgs.append((p, "0.00"))                   # a zero-length datagram: consumed without an event, the loop goes on
+                else:
+                    dgs.append((p, self.payload(big_ok=not dgs) + bad))
         if not dgs:
             return None
         if lid in g.lq:
             for p, pl in dgs:
-                if not pl.endswith("!"):
+                if not pl.endswith("!") and not pl.startswith("0."):
                     g.arrive(lid, g.addr_on(lid, p))
         return "dg %d %s" % (lid, ",".join("%d:%s" % d for d in dgs))
 
     def a_cdg(self):
-        sid = self.g.any_sid(self.rng, "c")
-        return "cdg %d %s" % (sid, ",".join(self.payload(big_ok=False) for _ in range(self.rng.choice([1, 1, 2, 3]))))
+        rng = self.rng
+        sid = self.g.any_sid(rng, "c")
+        if self.cat == "burst" and rng.chance(1, 2) or rng.chance(1, 40):
+            n = rng.choice([17, 18, 20, 33, 64, 65, 80])
+            return "cdg %d %s" % (sid, ",".join(self.tiny() for k in range(n)))
+        items = []
+        for _ in range(rng.choice([1, 1, 2, 3, 4, 5, 8, 16])):
+            # a zero-length datagram on a client socket is delivered as an empty view; what is queued behind it must still come out
+            items.append("0.00" if rng.chance(1, 5 if self.cat == "burst" else 12) else self.payload(big_ok=False))
+        return "cdg %d %s" % (sid, ",".join(items))
 
     def a_via(self):
         g, rng = self.g, self.rng
@@ -412,6 +467,8 @@ class Gen:
         rng, g = self.rng, self.g
         while len(self.ops) < nops:
             k = rng.below(100)
+            if self.cat == "burst" and rng.chance(1, 2):
+                k = rng.choice([0, 0, 32, 70, 70, 75])        # mostly arrivals: dg, connect, cdg, multi
             if k < 22:
                 t = self.a_dg()
             elif k < 31:
@@ -435,10 +492,15 @@ class Gen:
             elif k < 95:
                 im = self.idle_ms
                 t = "adv %d" % rng.choice([1, 999, im - 1, im, im + 1, im // 2, 2 * im, 499, 501, 49999, 50001])
-            elif k < 99 or not rng.chance(1, 2):
+            elif k < 98:
                 t = "gc"             # the sketch does not follow the clock; stale ids afterwards are fine
             else:
                 t = "restart"        # stop() + start(): sessions and listeners are gone, id counters go on
+                if rng.chance(1, 2):
+                    # commands that race with stop(): in front of Shutdown in the same batch, or enqueued by an onClose callback of that batch
+                    # (then run by shutdownDrain's leading process())
+                    cmds = " / ".join(self.a_send() if rng.chance(3, 4) else self.a_close() for _ in range(rng.choice([1, 1, 2, 3])))
+                    t = "restart %s%s" % ("@%d " % g.any_sid(rng) if rng.chance(1, 2) else "", cmds)
                 g.sess.clear(); g.ix.clear(); g.cq.clear()
                 g.lq, g.lfam = {}, {}
                 self.ops.append(t)
@@ -497,6 +559,17 @@ def atoms_of(op):
     t = op.split()
     if not t:
         return []
+    if t[0] == "restart" and len(t) > 1:
+        # restart <cmd> / … | restart @<sid> <cmd> / … : commands run in the batch that carries the Shutdown command / by shutdownDrain's leading process()
+        out, cur = [], []
+        for y in (t[2:] if t[1].startswith("@") else t[1:]) + ["/"]:
+            if y == "/":
+                if cur:
+                    out.append(cur)
+                cur = []
+            else:
+                cur.append(y)
+        return out + [["restart"]]
     if t[0] != "multi":
         return [t]
     out = []
@@ -595,8 +668,8 @@ def monitor_case(c, impl):
                     if after or any(e.startswith("X%d:" % sid) for e in evs):
                         for pl in t[2].split(","):
                             n, crc = expand(pl)
-                            if n >= 1:
-                                arrivals.append(["C", sid, n, crc, gi, not after])
+                            # (a zero-length datagram on a client socket comes out as ONE empty data event, crc32("") = 0)
+                            arrivals.append(["C", sid, n, crc, gi, not after])
         datas = []
         for e in evs:
             k = e[0]
@@ -772,6 +845,70 @@ def report_property(ctx, hb, c, impl, model, fails, state):
     return True
 
 
+HARNESS_COUNTS = {}      # sums of the harness-side counters (stderr line `interposers: k=v …`) over every lockstep run of this check
+
+
+def add_interposer_counts(err):
+    for l in (err or "").splitlines():
+        if l.startswith("interposers:"):
+            for kv in l.split()[1:]:
+                k, v = kv.split("=")
+                if k == "maxBurst":
+                    HARNESS_COUNTS[k] = max(HARNESS_COUNTS.get(k, 0), int(v))
+                else:
+                    HARNESS_COUNTS[k] = HARNESS_COUNTS.get(k, 0) + int(v)
+
+
+# ------------------------------------------------------------------ free-running family: the REAL epoll_wait decides (monitors only)
+FREE_OPS = ["free burst 20", "free burst 80", "free burst 64 et=0", "free zl", "free zl et=0", "free flush", "free flush et=0"]
+
+
+def free_family(ctx, hb, state):
+    """Real epoll, real clock, no fabricated event. Returns property failures [(what, op, answer)]; a scenario that fails is re-run twice
+    (timing): only a failure that reproduces both times counts."""
+    def judge(op, line):
+        parts = [x.strip() for x in line.split("|")]
+        if len(parts) != 3 or not parts[0].startswith("free"):
+            return "T0: free-running scenario gave no answer: %s" % line[:80]
+        before, after = parts[1], parts[2]
+        t = op.split()
+        if t[1] == "burst":
+            n = int(t[2])
+            if before != "data=%d/%d" % (n, n):
+                return ("T2: real epoll, ONE readiness edge for a burst of %d datagrams: only %s data events; the rest stays in the kernel queue until new traffic "
+                        "arrives (after one more datagram: %s)" % (n, before.split("=")[-1], after))
+            if after != "data=%d/%d" % (n + 1, n + 1):
+                return "T2: real epoll: after a burst of %d, one more datagram: %s data events" % (n, after)
+        elif t[1] == "zl":
+            ev = before.split(";")
+            if not (len(ev) == 3 and ev[1].endswith(":0:0") and ev[2].split(":")[1] == "5"):
+                return ("T3: real epoll: a 5-byte datagram queued behind a zero-length one on a connect()ed session was not delivered (events: %s; after a third "
+                        "datagram: %s)" % (before, after))
+        elif t[1] == "flush":
+            if "peer-received=exact" not in after or "duplicate" in after:
+                return "T1: real epoll: a datagram queued on EAGAIN was not flushed exactly once by the real EPOLLOUT report (%s)" % after
+        return None
+    out, rc, err = ctx.run_lines([hb], FREE_OPS, timeout=120)
+    check_machinery(out)
+    res = []
+    state["free_running"] = {}
+    for op, line in zip(FREE_OPS, out + ["-"] * (len(FREE_OPS) - len(out))):
+        state["free_running"][op] = line[:160]
+        why = judge(op, line)
+        if why:
+            again = 0
+            for _ in range(2):
+                o2, _, _ = ctx.run_lines([hb], [op], timeout=60)
+                check_machinery(o2)
+                if judge(op, o2[0] if o2 else "-"):
+                    again += 1
+            if again == 2:
+                res.append((why, op, line))
+            else:
+                state["machinery_suspects"].append({"what": why, "ops": [op], "reproduced": again})
+    return res
+
+
 def lockstep_bounded(ctx, hb, cases, timeout, max_crashes=2):
     """Like ctx.lockstep, but the work on a broken tree is bounded: at most `max_crashes` harness restarts, then the remaining cases are
     not run (returned as None)."""
@@ -788,6 +925,7 @@ def lockstep_bounded(ctx, hb, cases, timeout, max_crashes=2):
     while start_case < len(cases):
         lo = bounds[start_case][0]
         out, rc, err = ctx.run_lines([hb], all_ops[lo:], timeout=timeout)
+        add_interposer_counts(err)
         for i, l in enumerate(out[: len(all_ops) - lo]):
             impl_out[lo + i] = l
         got = lo + min(len(out), len(all_ops) - lo)
@@ -837,7 +975,7 @@ def replay(ctx):
     return 1 if still else 0
 
 
-CATS = [("default", 26), ("same-peer", 14), ("same-key", 9), ("dual", 9), ("queue", 13), ("cap", 7), ("gc", 8), ("mixed", 10), ("small-chunk", 4)]
+CATS = [("default", 24), ("same-peer", 13), ("same-key", 9), ("dual", 9), ("queue", 13), ("cap", 7), ("gc", 8), ("mixed", 10), ("small-chunk", 4), ("burst", 6)]
 
 
 def run(ctx: Ctx):
@@ -854,16 +992,23 @@ def run(ctx: Ctx):
     if force_long:
         ctx.log("NOTE: %s changed since the model was reviewed: running extra long-address (dual-stack / v4-mapped / same-port) cases" % ", ".join(force_long))
         ctx.notes.append("key()/address code changed since review (%s): extra long-address cases were run" % ", ".join(force_long))
+    force_loop = [k for k in changed if k in LOOP_ANCHORS]
+    if force_loop:
+        ctx.log("NOTE: %s changed since the model was reviewed: running extra burst / zero-length cases" % ", ".join(force_loop))
+        ctx.notes.append("receive-loop / dispatch code changed since review (%s): extra burst and zero-length cases were run" % ", ".join(force_loop))
     ok_build = ctx.lake_build(MODULES)
     if ok_build:
         ctx.audit(MODULES, OBLIGATIONS)
         if not quick:
-            ctx.leanchecker(MODULES + ["IoraModel.Lemmas.UdpTokens", "IoraModel.Lemmas.UdpCount", "IoraModel.Lemmas.UdpArm", "IoraModel.Lemmas.UdpEngine",
+            ctx.leanchecker(MODULES + ["IoraModel.Lemmas.UdpTokens", "IoraModel.Lemmas.UdpCount", "IoraModel.Lemmas.UdpArm", "IoraModel.Lemmas.UdpWake", "IoraModel.Model.UdpWake", "IoraModel.Lemmas.UdpEngine",
                                        "IoraModel.Model.UdpEngine", "IoraModel.Gen.Udp"])
     else:
         ctx.cov["obligations"] = len(OBLIGATIONS)
     hb = ctx.build_harness(HARNESS, sanitize=True)
     dist, opdist, evdist = {}, {}, {}
+    burstdist = {"1": 0, "2-4": 0, "5-16": 0, "17-64": 0, "65+": 0}
+    cfgdist = {"cases": 0, "batch=1": 0, "et=0": 0, "et=1(explicit)": 0, "cob=0": 0, "cap": 0}
+    edist = {"keyfail": 0}
     sizes = {"1": 0, "2-1472": 0, "1473-8192": 0, "8193-65505": 0, "65506": 0, "65507": 0, ">65507": 0, "0": 0}
     peers_used = {}
     state = {"machinery_suspects": [], "stopped_early": None, "not_run": 0, "harness_restarts": 0}
@@ -878,6 +1023,9 @@ def run(ctx: Ctx):
         if force_long:
             for i in range(max(150, ncases // 8)):
                 rest.append(gen_case(grng, "dual" if i % 3 else "same-key", grng.choice([12, 20, 30])))
+        if force_loop:
+            for i in range(max(120, ncases // 10)):
+                rest.append(gen_case(grng, "burst", grng.choice([8, 12, 20])))
         grng.shuffle(rest)          # every chunk sees every category
         chunk_n = 500 if quick else 2500
         chunks = [first] + [rest[i:i + chunk_n] for i in range(0, len(rest), chunk_n)]
@@ -890,8 +1038,24 @@ def run(ctx: Ctx):
                 if impl is None:
                     state["not_run"] += 1
                     continue
-                check_machinery(impl)
+                try:
+                    check_machinery(impl)
+                except MachineryError as me:
+                    # a broken tree can break the machinery too (datagrams the engine never reads fill the socket's receive buffer): once failing
+                    # inputs are in hand they are the result; without any, it is the machinery (exit 2)
+                    if n_prop == 0:
+                        raise
+                    state["stopped_early"] = "machinery failure (%s) after %d property failure(s) with a failing input" % (str(me)[:80], n_prop)
+                    state["machinery_after_failures"] = True
+                    break
                 dist[c["cat"]] = dist.get(c["cat"], 0) + 1
+                cf = c.get("cfg", {})
+                cfgdist["cases"] += 1
+                cfgdist["batch=1"] += 1 if cf.get("batch") == 1 else 0
+                cfgdist["et=0"] += 1 if cf.get("et") == 0 else 0
+                cfgdist["et=1(explicit)"] += 1 if cf.get("et") == 1 else 0
+                cfgdist["cob=0"] += 1 if cf.get("cob") == 0 else 0
+                cfgdist["cap"] += 1 if cf.get("ms") else 0
                 nontrivial = False
                 for op, l in zip(c["ops"], impl):
                     for t in atoms_of(op):
@@ -902,8 +1066,13 @@ def run(ctx: Ctx):
                                 p, pl = x.rstrip("!").split(":")
                                 peers_used[p] = peers_used.get(p, 0) + 1
                                 toks.append(pl)
+                                if x.endswith("!") and not pl.startswith("0.") and ("L%s:" % t[1]) in (parse_answer(l) or ([], {}))[1].get("l", ""):
+                                    edist["keyfail"] += 1
                         elif t[0] == "cdg" and len(t) == 3:
                             toks = t[2].split(",")
+                        if t[0] in ("dg", "cdg") and len(t) == 3:
+                            nb = len(toks)
+                            burstdist["1" if nb == 1 else "2-4" if nb <= 4 else "5-16" if nb <= 16 else "17-64" if nb <= 64 else "65+"] += 1
                         elif t[0] == "send" and len(t) == 4:
                             toks = [t[2]]
                         for tok in toks:
@@ -938,12 +1107,17 @@ def run(ctx: Ctx):
                                       {"broken": {"correspondence": "udp lockstep (harness/c06_udp.cpp vs Model/UdpEngine.lean)", "detail": "first differing op index %d" % i},
                                        "ops": c["ops"], "observed": impl, "expected_by_model": model, "cfg": c.get("cfg", {})}, found_input=False)
             # bounded work on a broken tree: once a few failing inputs are in hand (or the harness keeps dying), more cases add nothing
+            if state.get("machinery_after_failures"):
+                break
             if n_prop >= 3 or n_mismatch >= 30 or state["harness_restarts"] >= 2 or len(state["machinery_suspects"]) >= 4 or state.get("hang_confirmed"):
                 if ci + 1 < len(chunks):
                     state["stopped_early"] = "after chunk %d of %d: %d property failure(s), %d model/impl mismatch(es), %d harness restart(s)" % (
                         ci + 1, len(chunks), n_prop, n_mismatch, state["harness_restarts"])
                     state["not_run"] += sum(len(x) for x in chunks[ci + 1:])
                 break
+        if not state.get("hang_confirmed") and state["harness_restarts"] < 2 and not state.get("machinery_after_failures"):
+            for why, op, line in free_family(ctx, hb, state):
+                ctx.violation("property", why, {"ops": [op], "observed": [line], "category": "free-running (real epoll_wait, no model)", "cfg": {}}, found_input=True)
         if state["machinery_suspects"] and not ctx.violations:
             # a timeout / lost datagram that did not reproduce and nothing else wrong: the machinery, not the property (exit 2, no VIOLATION)
             raise MachineryError("non-reproducing timeout/lost-datagram: %s" % state["machinery_suspects"][0]["what"][:200])
@@ -953,7 +1127,23 @@ def run(ctx: Ctx):
         for l in err.splitlines():
             if l.startswith("interposers:"):
                 ctx.extra["interposer_counts_on_corpus_and_boundary_sample"] = dict(kv.split("=") for kv in l.split()[1:])
-    ctx.extra["input_distribution"] = {"categories": dist, "ops": opdist, "payload_sizes": sizes, "events_seen": evdist, "datagrams_by_peer": peers_used}
+    hc = dict(HARNESS_COUNTS)
+    ctx.extra["input_distribution"] = {"categories": dist, "ops": opdist, "payload_sizes": sizes, "events_seen": evdist, "datagrams_by_peer": peers_used,
+                                       "datagrams_per_wakeup": burstdist, "cfg_flags": cfgdist,
+                                       "branches_measured_in_harness": {
+                                           "send_eagain_injected_total": hc.get("eagain", 0), "send_error_injected_total": hc.get("err", 0),
+                                           "overflow_close_session(cob=1)": hc.get("overflowClose", 0), "overflow_drop_oldest(cob=0)": hc.get("overflowDropOldest", 0),
+                                           "gc_closed_by_idle": hc.get("gcIdle", 0), "gc_closed_by_age": hc.get("gcAge", 0), "gc_closed_by_write_stall": hc.get("gcStall", 0),
+                                           "merged_IN|OUT_events": hc.get("mergedInOut", 0), "zero_length_arrivals": hc.get("zeroLenArrivals", 0),
+                                           "largest_burst_per_wakeup": hc.get("maxBurst", 0), "level_triggered_redeliveries": hc.get("ltRedeliveries", 0),
+                                           "epoll_ctl_failed": hc.get("epollCtlFailed", 0), "getnameinfo_failed(E from key failure)": hc.get("getnameinfoFailed", 0),
+                                           "E_events_from_flush_errors": max(0, evdist.get("E", 0) - edist["keyfail"]), "E_events_from_key_failure": edist["keyfail"],
+                                           "peer_bind_same_port_fallbacks": hc.get("samePortFallback", 0),
+                                           "sendAsync_calls": hc.get("sendAsyncCalls", 0), "restart_with_commands_in_the_shutdown_batch": hc.get("restartWithPending", 0),
+                                           "restart_with_commands_enqueued_by_onClose(leading process() of shutdownDrain)": hc.get("restartFromCallback", 0)}}
+    if hc.get("samePortFallback", 0):
+        ctx.notes.append("REACH LOST: a same-port twin peer (127.0.0.2 / ::1) could not bind the port of its 127.0.0.1 twin and fell back to a random port "
+                         "(%d time(s)): the 'same port, other host/family' cases did not exercise the host part of the key" % hc["samePortFallback"])
     ctx.extra["bounded_work"] = state
     ctx.extra["repo_tree_sha"] = ctx.repo_tree_sha(ANCHOR_FILES)
     ctx.extra["not_proved"] = NOT_PROVED
@@ -970,7 +1160,16 @@ NOT_PROVED = [
     "theorems are over sequences of I/O-thread steps (one epoll event / one command each); a multi-event batch is the sequence of its events in the order the loop "
     "flavour handles them (Model.batchOrder; the harness exercises both flavours); API calls on other threads only enqueue commands, so their order is the step order. "
     "Concurrent callers racing on the id counter are outside the model (G7 pins the counter to std::atomic)",
-    "zero-length datagrams are outside the property (sizes 1..65507): on a listener they are consumed without an event, on a client socket they are delivered as an empty view and end the read loop (modelled as such)",
+    "zero-length datagrams are outside the property's size range (1..65507) but not outside the model: on a listener they are consumed without an event, on a client "
+    "socket they are delivered as ONE empty view; in both cases the loop goes on (onClient: the FC06b repair — G8 pins it, FC06b_refuted_with_zero_length_break shows what the `break` did)",
+    "SCOPE: the property is decided for the engine's DATA EVENTS (EngineBase::Callbacks::onData = Transport in ASYNC read mode). Transport in SYNC read mode "
+    "(setReadMode(Sync), transport_impl.hpp: onData appends every datagram to ONE per-session byte buffer, receiveSync cuts it at the caller's length) is a byte-stream "
+    "view by design: datagram boundaries are merged/split there. That adapter is not modelled here (its own properties: C03/C04); a caller that needs boundaries on UDP uses the data callback",
+    "hard recv/recvfrom errors (not EAGAIN): readFromListener reports and leaves the loop (left-overs wait for the next arrival under EPOLLET), onClient closes the session; "
+    "modelled only as 'the wake-up ends' (no input produces them on loopback); shutdownDrain's RESIDUAL-command loop (a connect()/connectViaListener() enqueued after its "
+    "leading process(): the id is closed with ShuttingDown) is not modelled or driven; the leading process() and commands sharing the batch with Shutdown are (op `restart <cmds>`)",
+    "the wake-up layer (Model/UdpWake.lean) models ONE socket's EPOLLIN per step; that epoll_wait reports every ready descriptor within epollMaxEvents rounds, and that "
+    "an arrival on an EPOLLET socket always produces a report, are kernel facts (assumed; exercised by the free-running family on the real epoll)",
     "KeyInjective (distinct socket addresses have distinct key() strings) is an explicit HYPOTHESIS of T2_one_datagram, T2_burst, T3_next_datagram and T3_trace, not a theorem: "
     "G6 pins what the source decides (shape, buffer sizes, empty key refused); getnameinfo itself is exercised, not proved — same-port peers on 127.0.0.1 / 127.0.0.2 / ::1, "
     "and the v4-mapped forms ::ffff:127.0.0.x:<port> (16+ character hosts) on a dual-stack listener, with a monitor that compares every live session's pkey with the harness's own "
@@ -979,7 +1178,8 @@ NOT_PROVED = [
 ]
 ASSUMPTIONS = [
     "kernel UDP is modelled, not verified: one successful send/sendto with flags MSG_NOSIGNAL = one datagram with these bytes to this destination; a connected socket only returns its peer's datagrams; "
-    "epoll reports a socket only for events in the interest mask last set by epoll_ctl",
+    "epoll reports a socket only for events in the interest mask last set by a SUCCESSFUL epoll_ctl; an edge-triggered socket is reported when a datagram arrives, "
+    "a level-triggered one whenever its queue is non-empty",
     "getnameinfo's numeric host:port key is injective on socket addresses (the model identifies the string key with the address)",
     "the I/O thread is the only thread that touches the tables; one model step = one epoll event or one queued command",
     "callbacks do not re-enter the engine synchronously (close()/send() from a callback only enqueue a command, which is a later step)",
